@@ -212,7 +212,7 @@ MaxF == CHOOSE f \in FSet : \A g \in FSet : g <= f
 Cases == {c \in [kind : Kinds, F : FSet, q : 1..MaxFrames, r : 0..(MaxF - 1),
                  meta : (0..MaxMeta) \cup {Absent}, quiet : BOOLEAN, cq : -1..(MaxFrames + 1), cr : {0, 1}] :
             /\ c.r < c.F
-            /\ c.kind = "cbin" => c.r = 0 /\ ~c.quiet
+            /\ c.kind = "cbin" => c.r = 0          \* (both values of ignore_warnings: the branch that rewrites the duration must not depend on it)
             /\ c.meta = Absent => c.kind = "online"
             /\ c.cq = -1 => c.cr = 0
             /\ c.cq >= 0 => /\ c.kind = "offline" /\ c.quiet /\ c.r \in {0, 1, c.F - 1} /\ c.cq * c.F + c.cr # c.q * c.F + c.r
